@@ -1,6 +1,8 @@
 import PfModel.DriverVal
 import PfModel.Model.Validate
+import PfModel.Model.ValidateEdit
 import PfModel.Generated.C12Facts
+import PfModel.DriverC12Ctor
 /-! Driver for C12 (`validate`): construction and the start of `map` on a possibly ill-formed request.
     Run: `lake env lean --run Driver/C12.lean < requests.jsonl`. -/
 open Lean PF PF.Drv PF.Map PF.Validate
@@ -69,8 +71,78 @@ def putKind : CallKind → Json
   | .neutral => jStr "neutral"
   | .unknown => jStr "unknown"
 
+/-- `{"k": "member-defaults" | "member-bound" | "member-rename" | "pipe-defaults" | "pipe-rename", …}` -/
+def getEdit (j : Json) : R Edit := do
+  match ← strF j "k" with
+  | "member-defaults" => return .memberDefaults (← strF j "fn") (← strF j "p") (← getVal (← fld j "v"))
+  | "member-bound" => return .memberBound (← strF j "fn") (← strF j "p") (← getVal (← fld j "v"))
+  | "member-rename" => return .memberRename (← strF j "fn") (← strF j "old") (← strF j "new")
+  | "pipe-defaults" => return .pipeDefaults (← strF j "p") (← getVal (← fld j "v"))
+  | "pipe-rename" => return .pipeRename (← strF j "old") (← strF j "new")
+  | k => .error s!"unknown edit {k}"
+
+/-- `null` (no executor), `"bare"`, or `{"keys": […]}` -/
+def getExec (j : Option Json) : R ExecArg :=
+  match j with
+  | none => return .absent
+  | some (.str "bare") => return .bare
+  | some (.str s) => .error s!"unknown executor form {s}"
+  | some j => do return .dict (← listF asStr j "keys")
+
+def getReq (a : Json) (fs : List MFunc) : R Req := do
+  let order := (← optF (asList asStr) a "order").getD (defaultOrder fs)
+  let prev ← optF getPrev a "prev"
+  return { inputs := ← getKw (← fld a "inputs"), internal := ← getInternal a "internal", storage := ← getStorage (← fld a "storage"),
+           outputNames := ← optF (asList asStr) a "output_names",
+           fixed := ← optF (asList (asPair asStr getSel)) a "fixed",
+           folder := ← boolF a "folder", cleanup := ← boolF a "cleanup", executor := ← boolF a "executor",
+           parallel := ← boolF a "parallel", order := order, prev := prev }
+
+/-- index of the first refused edit (the session functions themselves stop there) -/
+def firstRefused (es : List EFunc) (edits : List Edit) (k : Nat := 0) : Option Nat :=
+  match edits with
+  | [] => none
+  | ed :: rest => match applyEdit es ed with
+    | .error _ => some k
+    | .ok es' => firstRefused es' rest (k + 1)
+
+def putMFuncBrief (f : MFunc) : Json :=
+  jObj [("name", jStr f.name), ("params", jList (fun p => jStr p.1) f.params), ("outputs", jList jStr f.outputs),
+        ("defaults", jList jStr (akeys f.defaults)), ("bound", jList jStr (akeys f.bound))]
+
 def handle (m : String) (a : Json) : R Json := do
   match m with
+  | "session" =>
+    -- build (must be valid), edit in place, then start `map` (with the executor form) or `run`
+    let base ← listF getMFunc a "funcs"
+    let edits ← listF getEdit a "edits"
+    let c := construct base
+    match c with
+    | .error _ => return jObj [("construct", putRes c)]
+    | .ok _ =>
+      let edited := applyEdits (base.map EFunc.ofMFunc) edits
+      let editRes : Json := match edited with
+        | .ok _ => jObj [("ok", jBool true)]
+        | .error e => jObj [("err", putExc e.exc), ("check", jStr e.check),
+                            ("index", match firstRefused (base.map EFunc.ofMFunc) edits with | some k => jNat k | none => Json.null)]
+      let fsAfter := match edited with | .ok es => funcsOf es | .error _ => []
+      match ← strF a "action" with
+      | "map" =>
+        let r ← getReq a fsAfter
+        let ex ← getExec (fld? a "exec")
+        let (effs, res) := sessionMap base edits r ex
+        let orderOk := match edited with
+          | .ok _ => (orderValid fsAfter r.order || (startMap2 fsAfter r ex).2 != .ok ()) &&
+                     (match r.prev with | some p => orderValid p.funcs p.order | none => true)
+          | .error _ => true
+        return jObj [("construct", putRes c), ("edit", editRes), ("start", putRes res), ("effects", jList putEffect effs),
+                     ("order_ok", jBool orderOk), ("funcs_after", jList putMFuncBrief fsAfter)]
+      | "run" =>
+        let calls ← listF asStr a "calls"
+        let (effs, res) := sessionRun base edits calls
+        return jObj [("construct", putRes c), ("edit", editRes), ("start", putRes res), ("effects", jList putEffect effs),
+                     ("funcs_after", jList putMFuncBrief fsAfter)]
+      | x => .error s!"unknown action {x}"
   | "validate" =>
     let fs ← listF getMFunc a "funcs"
     let c := construct fs
@@ -105,11 +177,28 @@ def handle (m : String) (a : Json) : R Json := do
                    ("PipeFunc.__init__", jBool (ctorValidates pipeFuncInitRequired Generated.pipeFuncInitCalls)),
                    ("PipeFunc._validate", jBool (ctorValidates pipeFuncValidateRequired Generated.pipeFuncValidateCalls &&
                       isSubseq pipeFuncValidateRequired Generated.pipeFuncValidateCalls))]),
+                 ("round3", jObj [
+                   ("Pipeline.graph", jBool (requiredBefore ["validate_unique_output_names_of", "validate_consistent_defaults"] "nx.DiGraph"
+                      Generated.pipelineGraphCalls && Generated.pipelineGraphCalls.contains "nx.DiGraph")),
+                   ("Pipeline.topological_generations", jBool (Generated.pipelineTopoCalls.contains "nx.topological_generations")),
+                   ("_validate_complete_inputs", jBool (requiredBefore ["pipeline.topological_generations"] "raise" Generated.validateCompleteInputsCalls)),
+                   ("Pipeline.run", jBool (requiredBefore ["self.func_dependencies"] "self._run" Generated.pipelineRunCalls)),
+                   ("PipeFunc.update_*", jBool (
+                      isSubseq ["self._validate_update", "self._clear_internal_cache", "self._validate"] Generated.pipeFuncUpdateDefaultsCalls &&
+                      isSubseq ["self._validate_update", "self._clear_internal_cache", "self._validate"] Generated.pipeFuncUpdateBoundCalls &&
+                      isSubseq ["self._validate_update", "self._clear_internal_cache", "self._validate"] Generated.pipeFuncUpdateRenamesCalls &&
+                      Generated.pipeFuncClearCacheCalls.contains "pipeline._clear_internal_cache")),
+                   ("Pipeline.update_*", jBool (
+                      isSubseq ["f.update_defaults", "self._clear_internal_cache", "raise", "self._validate"] Generated.pipelineUpdateDefaultsCalls &&
+                      isSubseq ["f.update_renames", "self._clear_internal_cache", "raise", "self._validate"] Generated.pipelineUpdateRenamesCalls)),
+                   ("prepare_run:_validate_executor_names", jBool ((beforeFirstEffect Generated.prepareRunCalls).contains "_validate_executor_names"))]),
                  ("unknown_calls", jList jStr
                    ((Generated.runMapCalls ++ Generated.runMapAsyncCalls).filter (fun c => classifyRun c == .unknown) ++
                     (Generated.pipelineInitCalls ++ Generated.pipelineAddCalls ++ Generated.pipelineValidateCalls ++
                      Generated.pipelineValidateMapspecCalls ++ Generated.pipeFuncInitCalls ++ Generated.pipeFuncValidateCalls).filter
                       (fun c => classifyCtor c == .unknown)))]
+  | "ctor" => handleCtor a
+  | "scopes" => handleScopes a
   | _ => .error s!"unknown entry {m}"
 
 def main : IO Unit := loop handle
